@@ -54,6 +54,12 @@ CHECKS = {
                    "and by correspondence; a declared Content-Length the body does not honour is outside the in-memory harness (net/http enforces it)",
         "assumptions": E2E_ASSUME,
     },
+    "C10": {
+        "module": "Vanguard.Props.C10", "namespace": "Vanguard.C10", "streams": ["limits", "e2e"],
+        "partial": "bytes.Buffer capacity growth and allocator behaviour are not modelled; response-side oversize delivery is covered by the "
+                   "writer correspondence and the limitWriter invariant, the oracle's not-delivered check is request-side",
+        "assumptions": E2E_ASSUME,
+    },
     "C11": {
         "module": "Vanguard.Props.C11", "namespace": "Vanguard.C11", "streams": ["e2e", "codes"],
         "partial": "panic-freedom is proved for every outcome-reporting path; for the writer/reader loops it is checked by correspondence; "
